@@ -776,3 +776,316 @@ Proof.
   apply (tail_cut_agrees keep (l ++ [f]) [] (filter keep l) a S K); [|exact Ea].
   rewrite filter_app. cbn [filter]. rewrite Kf. now rewrite app_nil_r.
 Qed.
+
+
+(* ------------------------------------------------------------------ checkpoint selection: characterization *)
+Definition ckpts (l : log) : list ckpt :=
+  flat_map (fun f => match ckpt_of f with Some c => [c] | None => [] end) l.
+(* the checkpoints a compile for `from` may use: visible, cumulative *)
+Definition elig (fixed : bool) (from : N) (l : log) : list ckpt :=
+  filter (fun c => eligible fixed from c && ck_cum c) (ckpts l).
+
+Fixpoint asc (u : list ckpt) : Prop :=
+  match u with [] => True | d :: r => Forall (fun e => ck_to d < ck_to e) r /\ asc r end.
+
+Definition insl (u : list ckpt) (E : list ckpt) : list ckpt := fold_left (fun u c => ins c u) E u.
+
+Lemma unique_of_insl fixed from l : unique_of fixed from l = insl [] (elig fixed from l).
+Proof.
+  unfold unique_of, insl. generalize (@nil ckpt) as u.
+  induction l as [|f r IH]; intros u; [reflexivity|].
+  cbn [fold_left]. rewrite IH. unfold elig, ckpts. cbn [flat_map]. rewrite filter_app, fold_left_app.
+  f_equal. unfold unique_step. destruct (ckpt_of f) as [c|]; [|reflexivity].
+  cbn [filter]. destruct (eligible fixed from c && ck_cum c); reflexivity.
+Qed.
+
+Lemma ins_in c u d : In d (ins c u) -> d = c \/ In d u.
+Proof.
+  induction u as [|x r IH]; cbn [ins]; [intros [<-|[]]; now left|].
+  destruct (ck_to c <? ck_to x).
+  - intros [<-|H]; [now left | now right].
+  - destruct (ck_to c =? ck_to x).
+    + destruct (ck_seq c <=? ck_seq x); intros [<-|H]; auto; [right; now left | right; now right | right; now right].
+    + intros [<-|H]; [right; now left|]. destruct (IH H) as [->|H']; [now left | right; now right].
+Qed.
+
+Lemma ins_asc c u : asc u -> asc (ins c u).
+Proof.
+  induction u as [|x r IH]; cbn [ins asc]; [intros _; split; [constructor|exact I]|].
+  intros [F A]. destruct (ck_to c <? ck_to x) eqn:L.
+  - cbn [asc]. split; [|split; assumption]. constructor; [lia|].
+    eapply Forall_impl; [|exact F]. cbn. intros; lia.
+  - destruct (ck_to c =? ck_to x) eqn:E.
+    + apply N.eqb_eq in E. destruct (ck_seq c <=? ck_seq x); cbn [asc]; split; auto.
+      eapply Forall_impl; [|exact F]. cbn. intros; lia.
+    + cbn [asc]. split; [|auto]. apply Forall_forall. intros d D.
+      destruct (ins_in _ _ _ D) as [->|D']; [lia|]. rewrite Forall_forall in F. auto.
+Qed.
+
+(* c itself is represented after the insertion ... *)
+Lemma ins_covers_new c u : exists d, In d (ins c u) /\ ck_to d = ck_to c /\ ck_seq c <= ck_seq d.
+Proof.
+  induction u as [|x r IH]; cbn [ins]; [exists c; repeat split; [now left|lia]|].
+  destruct (ck_to c <? ck_to x); [exists c; repeat split; [now left|lia]|].
+  destruct (ck_to c =? ck_to x) eqn:E.
+  - apply N.eqb_eq in E. destruct (ck_seq c <=? ck_seq x) eqn:S.
+    + exists x. repeat split; [now left|lia|lia].
+    + exists c. repeat split; [now left|lia].
+  - destruct IH as (d & I & T & S). exists d. repeat split; [now right|assumption|assumption].
+Qed.
+(* ... and so is everything that was *)
+Lemma ins_covers_old c u d : In d u -> exists d', In d' (ins c u) /\ ck_to d' = ck_to d /\ ck_seq d <= ck_seq d'.
+Proof.
+  induction u as [|x r IH]; [intros []|]. cbn [ins]. intros D.
+  destruct (ck_to c <? ck_to x); [exists d; repeat split; [now right|lia]|].
+  destruct (ck_to c =? ck_to x) eqn:E.
+  - apply N.eqb_eq in E. destruct (ck_seq c <=? ck_seq x) eqn:S.
+    + exists d. repeat split; [exact D|lia].
+    + destruct D as [<-|D]; [exists c; repeat split; [now left|lia|lia] | exists d; repeat split; [now right|lia]].
+  - destruct D as [<-|D]; [exists x; repeat split; [now left|lia]|].
+    destruct (IH D) as (d' & I & T & S). exists d'. repeat split; [now right|assumption|assumption].
+Qed.
+
+Definition covers (u S : list ckpt) : Prop :=
+  forall e, In e S -> exists d, In d u /\ ck_to d = ck_to e /\ ck_seq e <= ck_seq d.
+
+Lemma insl_inv E : forall u S, asc u -> incl u S -> covers u S ->
+  asc (insl u E) /\ incl (insl u E) (S ++ E) /\ covers (insl u E) (S ++ E).
+Proof.
+  induction E as [|c E IH]; intros u S A I C.
+  - unfold insl. cbn [fold_left]. rewrite app_nil_r. auto.
+  - unfold insl. cbn [fold_left]. fold (insl (ins c u) E).
+    replace (S ++ c :: E) with ((S ++ [c]) ++ E) by (rewrite <- app_assoc; reflexivity).
+    apply IH.
+    + apply ins_asc, A.
+    + intros d D. apply in_or_app. destruct (ins_in _ _ _ D) as [->|D']; [right; now left | left; auto].
+    + intros e Ie. apply in_app_or in Ie. destruct Ie as [Ie|[<-|[]]].
+      * destruct (C e Ie) as (d & Id & T & Sq). destruct (ins_covers_old c u d Id) as (d' & I' & T' & S').
+        exists d'. repeat split; [assumption|lia|lia].
+      * apply ins_covers_new.
+Qed.
+
+Lemma unique_of_inv fixed from l : let U := unique_of fixed from l in let E := elig fixed from l in
+  asc U /\ incl U E /\ covers U E.
+Proof.
+  cbv zeta. rewrite unique_of_insl.
+  destruct (insl_inv (elig fixed from l) [] [] I (fun _ H => match H with end) (fun _ H => match H with end)) as (A & B & C).
+  auto.
+Qed.
+
+(* ---- the largest entry at or below a threshold *)
+Lemma find_le_spec t u : asc u -> forall best,
+  (forall b, best = Some b -> ck_to b <= t /\ Forall (fun d => ck_to b < ck_to d) u) ->
+  match find_le t u best with
+  | Some c => (best = Some c \/ In c u) /\ ck_to c <= t
+              /\ (forall d, In d u -> ck_to d <= t -> ck_to d <= ck_to c)
+  | None => best = None /\ forall d, In d u -> t < ck_to d
+  end.
+Proof.
+  induction u as [|x r IH]; intros A best Hb.
+  - cbn [find_le]. destruct best as [b|].
+    + destruct (Hb b eq_refl) as [L _]. repeat split; [now left|exact L|intros d []].
+    + split; [reflexivity|intros d []].
+  - destruct A as [F A]. cbn [find_le]. destruct (ck_to x <=? t) eqn:L.
+    + specialize (IH A (Some x)).
+      assert (Hx : forall b, Some x = Some b -> ck_to b <= t /\ Forall (fun d => ck_to b < ck_to d) r).
+      { intros b Eb. inversion Eb; subst. split; [lia|exact F]. }
+      specialize (IH Hx). destruct (find_le t r (Some x)) as [c|].
+      * destruct IH as (Hin & Lc & Mx). repeat split; [|exact Lc|].
+        -- destruct Hin as [Hin|Hin]; [inversion Hin; subst; right; now left | right; now right].
+        -- intros d [<-|D] Ld; [|auto]. destruct Hin as [Hin|Hin]; [inversion Hin; lia|].
+           rewrite Forall_forall in F. specialize (F c Hin). lia.
+      * destruct IH as [Abs _]. discriminate.
+    + destruct best as [b|].
+      * destruct (Hb b eq_refl) as [Lb Fb]. repeat split; [now left|exact Lb|].
+        intros d D Ld. rewrite Forall_forall in Fb, F. destruct D as [<-|D]; [lia|]. specialize (F d D). lia.
+      * split; [reflexivity|]. intros d [<-|D]; [lia|]. rewrite Forall_forall in F. specialize (F d D). lia.
+Qed.
+
+(* ---- the halving ladder: each next entry is the largest one at or below half of the previous to_seq *)
+Fixpoint ladder (u : list ckpt) (hi : N) (l : list ckpt) : Prop :=
+  match l with
+  | [] => True
+  | lo :: r => In lo u /\ ck_to lo <= hi / 2 /\ (forall d, In d u -> ck_to d <= hi / 2 -> ck_to d <= ck_to lo)
+               /\ ladder u (ck_to lo) r
+  end.
+
+Lemma halve_ladder u : asc u -> forall k cur, ladder u cur (halve u cur k).
+Proof.
+  intros A. induction k as [|k IH]; intros cur; [exact I|]. cbn [halve].
+  destruct (cur <=? 1); [exact I|]. cbv zeta. destruct (cur / 2 =? 0); [exact I|].
+  pose proof (find_le_spec (cur / 2) u A None (fun b H => match H with end)) as S. cbv beta in S.
+  assert (S' := S). clear S.
+  destruct (find_le (cur / 2) u None) as [c|]; [|exact I].
+  destruct S' as (Hin & Lc & Mx). destruct (cur <=? ck_to c); [exact I|].
+  cbn [ladder]. destruct Hin as [Hin|Hin]; [discriminate|]. repeat split; auto.
+Qed.
+
+Lemma halve_length u k : forall cur, (length (halve u cur k) <= k)%nat.
+Proof.
+  induction k as [|k IH]; intros cur; [cbn; lia|]. cbn [halve].
+  destruct (cur <=? 1); [cbn; lia|]. cbv zeta. destruct (cur / 2 =? 0); [cbn; lia|].
+  destruct (find_le (cur / 2) u None) as [c|]; [|cbn; lia].
+  destruct (cur <=? ck_to c); [cbn; lia|]. cbn [length]. specialize (IH (ck_to c)). lia.
+Qed.
+
+Lemma last_default_irrel (l : list N) : forall x d1 d2, last (x :: l) d1 = last (x :: l) d2.
+Proof. induction l as [|y l IH]; intros x d1 d2; [reflexivity|]. cbn [last] in *. apply (IH y). Qed.
+
+(* the loop stops early only when there is nothing at or below half of the last to_seq (or it is <= 1) *)
+Lemma halve_complete u : asc u -> forall k cur, (length (halve u cur k) < k)%nat ->
+  let final := last (map ck_to (halve u cur k)) cur in
+  final <= 1 \/ forall d, In d u -> final / 2 < ck_to d.
+Proof.
+  intros A. induction k as [|k IH]; intros cur Hl; [cbn in Hl; lia|]. cbn [halve] in *.
+  destruct (cur <=? 1) eqn:C1; [left; cbn; lia|]. cbv zeta in *.
+  destruct (cur / 2 =? 0) eqn:T0.
+  { exfalso. assert (2 <= cur) by lia. pose proof (N.div_le_lower_bound cur 2 1). lia. }
+  pose proof (find_le_spec (cur / 2) u A None (fun b H => match H with end)) as S. cbv beta in S.
+  destruct (find_le (cur / 2) u None) as [c|].
+  - destruct S as (Hin & Lc & Mx). destruct (cur <=? ck_to c) eqn:Cc.
+    { exfalso. assert (cur / 2 < cur) by (apply N.div_lt; lia). lia. }
+    cbn [length] in Hl. assert (Hk : (length (halve u (ck_to c) k) < k)%nat) by lia.
+    specialize (IH (ck_to c) Hk). cbn [map].
+    destruct (halve u (ck_to c) k) as [|y ys] eqn:Hv; [cbn [map last] in *; exact IH|].
+    cbn [map] in *. change (last (ck_to c :: ck_to y :: map ck_to ys) cur) with (last (ck_to y :: map ck_to ys) cur).
+    rewrite (last_default_irrel (map ck_to ys) (ck_to y) cur (ck_to c)). exact IH.
+  - destruct S as [_ S]. right. cbn [map last]. exact S.
+Qed.
+
+Lemma asc_inj u : asc u -> forall a b, In a u -> In b u -> ck_to a = ck_to b -> a = b.
+Proof.
+  induction u as [|x r IH]; [intros _ a b []|]. intros [F A] a b [<-|Ia] [<-|Ib] E; auto.
+  - rewrite Forall_forall in F. specialize (F b Ib). lia.
+  - rewrite Forall_forall in F. specialize (F a Ia). lia.
+Qed.
+
+Lemma asc_app_inv a b : asc (a ++ b) -> asc a /\ asc b /\ forall x y, In x a -> In y b -> ck_to x < ck_to y.
+Proof.
+  induction a as [|f a IH]; cbn [app asc].
+  - intros H. repeat split; auto. intros x y [].
+  - intros [F S]. destruct (IH S) as (Ia & Ib & L). rewrite Forall_app in F. destruct F as [Fa Fb].
+    repeat split; auto. intros x y [<-|X] Y; [|auto]. rewrite Forall_forall in Fb. auto.
+Qed.
+
+Lemma asc_last_max u x r : asc u -> rev u = x :: r -> In x u /\ forall d, In d u -> ck_to d <= ck_to x.
+Proof.
+  intros A R. assert (U : u = rev r ++ [x]) by (rewrite <- (rev_involutive u), R; reflexivity).
+  subst u. split; [apply in_or_app; right; now left|].
+  destruct (asc_app_inv _ _ A) as (_ & _ & L). intros d D. apply in_app_or in D.
+  destruct D as [D|[<-|[]]]; [|lia]. specialize (L d x D (or_introl eq_refl)). lia.
+Qed.
+
+Fixpoint ladderE (E : list ckpt) (hi : N) (l : list ckpt) : Prop :=
+  match l with
+  | [] => True
+  | lo :: r =>
+    In lo E /\ ck_to lo <= hi / 2
+    /\ (forall e, In e E -> ck_to e <= hi / 2 ->
+          ck_to e <= ck_to lo /\ (ck_to e = ck_to lo -> ck_seq e <= ck_seq lo))
+    /\ ladderE E (ck_to lo) r
+  end.
+
+Lemma ladder_transfer U E : asc U -> incl U E -> covers U E ->
+  forall l hi, ladder U hi l -> ladderE E hi l.
+Proof.
+  intros A I C. induction l as [|lo r IH]; intros hi; [auto|]. cbn [ladder ladderE].
+  intros (Il & Ll & Mx & Rest). repeat split; auto.
+  - destruct (C e H) as (d & Id & T & S). specialize (Mx d Id). lia.
+  - intros Eq. destruct (C e H) as (d & Id & T & S).
+    assert (d = lo) by (apply (asc_inj U A); auto; lia). subst d. exact S.
+Qed.
+
+Lemma ladder_incl U : forall l hi, ladder U hi l -> incl l U.
+Proof.
+  induction l as [|x r IH]; intros hi; [intros _ c []|]. cbn [ladder].
+  intros (Ix & _ & _ & Rest) c [<-|Hc]; [exact Ix | exact (IH _ Rest c Hc)].
+Qed.
+
+Theorem hierarchy_spec fixed from n l :
+  let E := elig fixed from l in
+  let H := hierarchy fixed from n l in
+  (length H <= n)%nat
+  /\ incl H E
+  /\ (H = [] <-> (n = O \/ E = []))
+  /\ (forall latest rest, rev H = latest :: rest ->
+        (forall e, In e E -> ck_to e <= ck_to latest /\ (ck_to e = ck_to latest -> ck_seq e <= ck_seq latest))
+        /\ ladderE E (ck_to latest) rest
+        /\ ((length H < n)%nat ->
+             let final := last (map ck_to rest) (ck_to latest) in
+             final <= 1 \/ forall e, In e E -> final / 2 < ck_to e)).
+Proof.
+  cbv zeta. destruct (unique_of_inv fixed from l) as (A & I & C). unfold hierarchy.
+  destruct n as [|k].
+  { repeat split; try (cbn; lia); try (intros x []); auto; try discriminate. }
+  set (U := unique_of fixed from l) in *. set (E := elig fixed from l) in *.
+  destruct (rev U) as [|latest tl] eqn:R.
+  { assert (U = []) by (rewrite <- (rev_involutive U), R; reflexivity).
+    assert (EE : E = []).
+    { destruct E as [|e E'] eqn:Ee; [reflexivity|]. destruct (C e (or_introl eq_refl)) as (d & Id & _). rewrite H in Id. destruct Id. }
+    repeat split; try (cbn; lia); try (intros x []); auto; try discriminate. }
+  destruct (asc_last_max U latest tl A R) as [Il Mx].
+  pose proof (halve_ladder U A k (ck_to latest)) as Ld.
+  pose proof (halve_length U k (ck_to latest)) as Ln.
+  repeat split.
+  - rewrite rev_length. cbn [length]. lia.
+  - intros c Hc. apply in_rev in Hc. destruct Hc as [<-|Hc]; [auto|].
+    apply I. exact (ladder_incl U _ _ Ld c Hc).
+  - intros H. exfalso. apply (f_equal (@length ckpt)) in H. rewrite rev_length in H. cbn in H. lia.
+  - intros [H|H]; [discriminate|]. exfalso. specialize (I latest Il). rewrite H in I. destruct I.
+  - rewrite rev_involutive in H. inversion H; subst. destruct (C e H0) as (d & Id & T & S). specialize (Mx d Id). lia.
+  - rewrite rev_involutive in H. inversion H; subst. intros Eq. destruct (C e H0) as (d & Id & T & S).
+    assert (d = latest0) by (apply (asc_inj U A); auto; lia). subst d. exact S.
+  - rewrite rev_involutive in H. inversion H; subst. apply (ladder_transfer U E A I C). exact Ld.
+  - rewrite rev_involutive in H. inversion H; subst. intros Hl. rewrite rev_length in Hl. cbn [length] in Hl.
+    assert (Hk : (length (halve U (ck_to latest0) k) < k)%nat) by lia.
+    destruct (halve_complete U A k (ck_to latest0) Hk) as [F|F]; [left; exact F|right].
+    intros e Ie. destruct (C e Ie) as (d & Id & T & S). specialize (F d Id). lia.
+Qed.
+
+(* the cause "no_supported_compaction_checkpoint" cannot occur: when no cumulative checkpoint is visible, the latest
+   visible checkpoint (if any) is of another kind *)
+Lemma latest_any_in fixed from l : forall best,
+  (forall b, best = Some b -> In b (ckpts l) \/ True) ->
+  forall c, fold_left (latest_step fixed from) l best = Some c ->
+  best = Some c \/ (In c (ckpts l) /\ eligible fixed from c = true).
+Proof.
+  induction l as [|f r IH]; intros best _ c H; [left; exact H|].
+  cbn [fold_left] in H. apply IH in H; [|intros; now right].
+  unfold ckpts. cbn [flat_map]. fold (ckpts r).
+  destruct H as [H|[H E]]; [|right; split; [apply in_or_app; now right|exact E]].
+  unfold latest_step in H. destruct (ckpt_of f) as [k|]; [|now left].
+  destruct (eligible fixed from k) eqn:El; [|now left].
+  destruct best as [b|].
+  - destruct (ck_to b <=? ck_to k); [|now left]. inversion H; subst. right. split; [now left|exact El].
+  - inversion H; subst. right. split; [now left|exact El].
+Qed.
+
+Theorem no_supported_cause_unreachable P texts evs l from a :
+  p_max_refs P <> O -> d_cause (fst (compile_with P texts evs l from a)) <> 1.
+Proof.
+  intros Hn. unfold compile_with.
+  destruct (hierarchy_spec (p_fixed P) from (p_max_refs P) l) as (_ & _ & Emp & _). cbv zeta in Emp.
+  destruct (hierarchy (p_fixed P) from (p_max_refs P) l) as [|c [|c2 r]] eqn:Hh; cbn [fst d_cause]; try discriminate.
+  destruct (proj1 Emp eq_refl) as [H0|HE]; [contradiction|].
+  destruct (latest_any (p_fixed P) from l) as [k|] eqn:La; cbn [fst]; [|discriminate].
+  destruct (ck_cum k) eqn:Ck; cbn [fst]; [|discriminate]. exfalso.
+  unfold latest_any in La. apply latest_any_in in La; [|intros; now right].
+  destruct La as [La|[Ik Ek]]; [discriminate|].
+  assert (In k (elig (p_fixed P) from l)).
+  { unfold elig. apply filter_In. split; [exact Ik|]. now rewrite Ek, Ck. }
+  rewrite HE in H. destruct H.
+Qed.
+
+(* a thread whose visible checkpoints have to_seq 1, 3, 7, 20, 41 (41 twice): the ladder for cut 60 is 41 (the later
+   frame), 20, 7 — three levels, 3 and 1 not reached *)
+Definition hier_log : log :=
+  ex_log ++ [mkf 61 (BCkpt true 1 0); mkf 62 (BCkpt true 41 1); mkf 63 (BCkpt true 7 2); mkf 64 (BCkpt true 20 3);
+             mkf 65 (BCkpt true 41 4); mkf 66 (BCkpt true 3 5); mkf 67 (BCkpt false 55 6)].
+Lemma hierarchy_example :
+  map ck_seq (hierarchy false 60 3 hier_log) = [63; 64; 65]
+  /\ map ck_to (hierarchy false 60 3 hier_log) = [7; 20; 41]
+  /\ hierarchy true 60 3 hier_log = []
+  /\ map ck_to (hierarchy false 60 2 hier_log) = [20; 41]
+  /\ map ck_to (hierarchy false 6 3 hier_log) = [1; 3].
+Proof. conjs; vm_compute; reflexivity. Qed.
